@@ -110,6 +110,35 @@ theorem loop_fuel_enough
       | retry b => simp only [bump_outcome]; exact ih fuel _ _ _ hinv' hrest (by omega)
       | reauth b => simp only [bump_outcome]; exact ih fuel _ _ _ hinv' hrest (by omega)
 
+/-- the final state is the one a failed attempt restores or the one a successful attempt establishes -/
+theorem loop_final
+    (hatt : AttSpec att Inv Good ErrOk Allowed) :
+    ∀ (fuel : Nat) (plan : List Fault) (tries rounds : Nat) (st : σ), Inv st → (∀ x ∈ plan, Allowed x) →
+      Inv (loop att pol vis fuel tries rounds plan st).final ∨ Good (loop att pol vis fuel tries rounds plan st).final := by
+  intro fuel
+  induction fuel with
+  | zero => intro plan tries rounds st hinv _; exact Or.inl hinv
+  | succ fuel ih =>
+    intro plan tries rounds st hinv hall
+    rw [loop_succ]
+    have hhead : ∀ x, plan.head? = some x → Allowed x := by
+      intro x hx
+      cases plan with
+      | nil => cases hx
+      | cons y rest => simp at hx; subst hx; exact hall y (by simp)
+    have htail : ∀ y ∈ plan.tail, Allowed y := by
+      intro y hy
+      cases plan with
+      | nil => cases hy
+      | cons z rest => exact hall y (by simp at hy; simp [hy])
+    rcases hatt plan.head? st hinv hhead with ⟨h1, h2⟩ | ⟨e, h1, _, hinv'⟩
+    · simp only [h1]; exact Or.inr h2
+    · simp only [h1]
+      cases hp : pol e tries rounds with
+      | raise e' s => exact Or.inl hinv'
+      | retry b => simp only [bump_final]; exact ih _ _ _ _ hinv' htail
+      | reauth b => simp only [bump_final]; exact ih _ _ _ _ hinv' htail
+
 /-- every intermediate and the final visible state satisfies `P` -/
 theorem loop_history (P : Option Bytes → Prop)
     (hatt : AttSpec att Inv Good ErrOk Allowed)
